@@ -27,6 +27,7 @@ import (
 	"github.com/notaryproject/notation-go"
 	"github.com/notaryproject/notation-go/verifharness/lib"
 	"github.com/notaryproject/notation-go/verifier"
+	"github.com/notaryproject/notation-go/verifier/trustpolicy"
 	pf "github.com/notaryproject/notation-plugin-framework-go/plugin"
 	"github.com/opencontainers/go-digest"
 	ocispec "github.com/opencontainers/image-spec/specs-go/v1"
@@ -164,6 +165,14 @@ func main() {
 						pool = append(pool, env{fmt.Sprintf("fresh-payload-with-trailing-data-%d|%s|%s", ti, f, scheme), f, raw})
 					}
 				}
+			}
+			// a verification plugin is named (and will approve everything): what is signed is still not a Notary payload
+			pool = append(pool, env{"fresh-foreign-payload-type-plugin-demanding|" + f + "|" + scheme, f, lib.MustCoreSign(lib.SignSpec{Format: f, Scheme: signature.SigningScheme(scheme), Payload: lib.Payload(artA.Desc), ContentType: "application/json", Signer: good,
+				Ext: []signature.Attribute{{Key: lib.HdrPlugin, Critical: true, Value: "plug"}}})})
+			// the signed descriptor has the artifact's digest and size and NO media type member (blob callers may state one)
+			for _, a := range []art{artA, artB} {
+				pl, _ := json.Marshal(map[string]any{"targetArtifact": map[string]any{"digest": a.Desc.Digest, "size": a.Desc.Size}})
+				pool = append(pool, env{"fresh-no-media-type-member|" + f + "|" + scheme + "|" + a.Name, f, lib.MustCoreSign(lib.SignSpec{Format: f, Scheme: signature.SigningScheme(scheme), Payload: pl, Signer: good})})
 			}
 			pool = append(pool, env{"fresh-payload-without-target|" + f + "|" + scheme, f, lib.MustCoreSign(lib.SignSpec{Format: f, Scheme: signature.SigningScheme(scheme), Payload: []byte(`{}`), Signer: good})})
 		}
@@ -325,10 +334,34 @@ func main() {
 		// a verification plugin that approves whatever it is asked and processes every attribute
 		pm := lib.ScriptedManager{P: &lib.ScriptedPlugin{Caps: []pf.Capability{pf.CapabilityTrustedIdentityVerifier, pf.CapabilityRevocationCheckVerifier}}}
 		stores := []string{"ca:x", "signingAuthority:x"}
-		v, err := verifier.NewVerifierWithOptions(ts, verifier.VerifierOptions{OCITrustPolicy: lib.OCIPolicy(L.SV(ci), stores, []string{"*"}), BlobTrustPolicy: lib.BlobPolicy(L.SV(ci), stores, []string{"*"}),
+		ociDoc, blobDoc := lib.OCIPolicy(L.SV(ci), stores, []string{"*"}), lib.BlobPolicy(L.SV(ci), stores, []string{"*"})
+		// every fourth case: the document of the OTHER kind holds a statement of the same name whose level is skip, and that
+		// statement is used first on this verifier (statement names are unique per document, not across the two)
+		otherKindSkippedFirst := ci%4 == 2
+		isBlobAPI := c.API == "verifier.VerifyBlob" || c.API == "notation.VerifyBlob"
+		skipSV := trustpolicy.SignatureVerification{VerificationLevel: "skip"}
+		if otherKindSkippedFirst && isBlobAPI {
+			ociDoc = lib.OCIPolicy(skipSV, nil, nil)
+		} else if otherKindSkippedFirst {
+			blobDoc = &trustpolicy.BlobDocument{Version: "1.0", TrustPolicies: []trustpolicy.BlobTrustPolicy{{Name: "p", SignatureVerification: skipSV}}}
+		}
+		v, err := verifier.NewVerifierWithOptions(ts, verifier.VerifierOptions{OCITrustPolicy: ociDoc, BlobTrustPolicy: blobDoc,
 			RevocationCodeSigningValidator: lib.OKRev{}, RevocationTimestampingValidator: lib.OKRev{}, PluginManager: pm})
 		if err != nil {
 			panic(err)
+		}
+		if otherKindSkippedFirst {
+			r.Event("cases-after-a-skip-statement-of-the-other-kind-was-used")
+			lib.Guard(func() {
+				if isBlobAPI {
+					v.SkipVerify(ctx, notation.VerifierVerifyOptions{ArtifactReference: "r.io/a@" + artA.Desc.Digest.String()})
+					v.Verify(ctx, artA.Desc, e.Raw, notation.VerifierVerifyOptions{ArtifactReference: "r.io/a@" + artA.Desc.Digest.String(), SignatureMediaType: e.Format})
+				} else {
+					v.VerifyBlob(ctx, func(alg digest.Algorithm) (ocispec.Descriptor, error) {
+						return ocispec.Descriptor{Digest: alg.FromBytes(blobA), Size: int64(len(blobA))}, nil
+					}, e.Raw, notation.BlobVerifierVerifyOptions{SignatureMediaType: e.Format, TrustPolicyName: "p"})
+				}
+			})
 		}
 		var req map[string]string
 		switch c.MetaReq {
